@@ -52,7 +52,7 @@ func (c06) Cases(tier string) int {
 }
 
 func (c06) Rule() string {
-	return "corpus (12/120 simultaneous failing dependent calls, fan-out 300), every twelfth case a request through three query fields of the gateway's own with one resolver failing while the others are at work (no resolver may outlive Execute), then random federations x random queries x list fan-out 0-300 x fault assignments (0..all dependent calls failing with transport errors / error lists, released together through a barrier; a quarter of the cases under a request context that is cancelled while the n-th service call is under way; a root call answering with a malformed payload: wrong shape, empty, or an otherwise correct answer malformed at the position a dependent step joins); checked: Execute returns under a 20 s watchdog, no service call is in flight at return, the goroutine count settles back, the response does not change after return, the error list has one entry per injected error; non-trivial = at least 3 service calls; distinct = distinct (federation, query, fan-out, fault spec)"
+	return "corpus (12/120 simultaneous failing dependent calls, fan-out 300), every twelfth case a request through three query fields of the gateway's own with one resolver failing while the others are at work (no resolver may outlive Execute), then random federations x random queries x list fan-out 0-300 x fault assignments (0..all dependent calls failing with transport errors / error lists, released together through a barrier; a quarter of the cases under a request context that is cancelled while the n-th service call is under way; a root call answering with a malformed payload: wrong shape, empty, or an otherwise correct answer malformed at the position a dependent step joins); checked: Execute returns under a 20 s watchdog, no service call is in flight at return, the goroutine count settles back, the response does not change after return, the error list has one entry per injected error; non-trivial = at least 3 service calls; distinct = distinct (federation, query, fan-out, fault spec); 6 generated insertion sequences per case through executorInsertObject under a 3 s deadline (L0.returns: stitching never blocks, whatever is already at the place)"
 }
 
 // Run repeats a case: whether the collector's `select` picks the result or the error queue is a coin flip
